@@ -50,7 +50,7 @@ ASSUMPTIONS = ['symlinks planted by the administrator (not through client '
                'judged by where the kernel goes, not by string prefix',
                'for downloads only creating/modifying events are judged']
 REQUIRED = ['server_histories', 'server_requests', 'fs_events',
-            'symlink_histories', 'get_listings', 'scp_sequences',
+            'symlink_histories', 'single_link_histories', 'get_listings', 'scp_sequences',
             'hostile_names', 'openssh_sessions']
 BUDGET_S = {'quick': 300, 'thorough': 3400}
 CASE_TIMEOUT_S = 60
@@ -62,6 +62,14 @@ LINK_TARGETS = [b'.', b'..', b'../..', b'../../..', b'../../../outside',
                 b'../../../../outside/secret.txt', b'/', b'/outside',
                 b'/../outside', b'd1', b'f.txt', b'../f.txt', b'a/../..',
                 b'./../.', b'/d1/../..']
+
+
+SINGLE_TARGETS = LINK_TARGETS + [
+    b'./..', b'./../..', b'./../../outside/secret.txt', b'a/../..',
+    b'a/../../..', b'a/../../outside', b'a/../../../outside/secret.txt',
+    b'd1/../../outside', b'./a/../../outside/secret.txt', b'.//..//..',
+    b'f.txt/../../outside', b'nonexistent/../../outside',
+    b'a/./../../outside/secret.txt', b'./', b'a/..', b'a/../f.txt']
 
 
 def _path(rng, links):
@@ -110,8 +118,28 @@ def gen_cases(tier, seed):
                     build.append(['link', rng.choice(['/f.txt', '/d1/l',
                                                       '/l']), '/hard'])
                     links.append(b'hard')
+        single = rng.random() < 0.15
+        if single:
+            # exactly one link-making request in the whole history: the
+            # server must confine whatever target it is given
+            build = []
+            if rng.random() < 0.5:
+                build.append(['mkdir', '/d1'])
+            name = rng.choice(['/l', '/a/l', '/d1/l'])
+            build.append(['symlink', rng.choice(SINGLE_TARGETS)
+                          .decode('latin-1'), name])
+            links = [b'l']
         reqs = []
-        for _ in range(rng.choice([1, 2, 3, 5, 8])):
+        if single:
+            for _ in range(rng.choice([2, 3, 5])):
+                op = rng.choice(['open_r', 'open_r', 'open_w', 'opendir',
+                                 'stat', 'setstat', 'mkdir', 'remove',
+                                 'readlink', 'realpath', 'copy_data'])
+                suffix = rng.choice(['', '/secret.txt', '/outside',
+                                     '/outside/secret.txt', '/new',
+                                     '/../outside/secret.txt'])
+                reqs.append([op, name + suffix, '/copy'])
+        for _ in range(0 if single else rng.choice([1, 2, 3, 5, 8])):
             op = rng.choice(['open_r', 'open_w', 'opendir', 'stat', 'lstat',
                              'setstat', 'mkdir', 'rmdir', 'remove', 'rename',
                              'posix_rename', 'readlink', 'symlink', 'link',
@@ -136,15 +164,25 @@ def gen_cases(tier, seed):
                      'symlink': rng.choice(['..', '../..', '/', '../outside',
                                             'ok.txt', '/tmp'])}[kind]
             entries.append([name, kind, extra])
-        if rng.random() < 0.3:
-            # same name first as a symlink to outside, then as a directory
-            entries = [['lnk', 'symlink', rng.choice(['../outside', '..',
-                                                      '/tmp'])],
-                       ['lnk', 'dir', None]] + entries
+        if rng.random() < 0.4:
+            # same name first as a symlink to outside, then (directly or
+            # after other files / directories) again as a directory or file
+            tgt = rng.choice(['../outside', '..', '/tmp', '../../../outside',
+                              '../../..', '../../../outside/victim.txt'])
+            between = []
+            for _ in range(rng.choice([0, 0, 1, 1, 2, 3])):
+                bk = rng.choice(['dir', 'dir', 'file'])
+                bn = rng.choice(['mid', 'mid2', 'ok.txt', 'zz'])
+                between.append([bn, bk, None if bk == 'dir'
+                                else 'data-' + bn])
+            again = rng.choice(['dir', 'dir', 'file'])
+            entries = [['lnk', 'symlink', tgt]] + between + \
+                [['lnk', again, None if again == 'dir' else 'data-lnk']] + \
+                (entries if rng.random() < 0.5 else [])
         cases.append({'kind': 'get', 'entries': entries,
                       'sub': [[rng.choice(names), 'file', 'sub-data']
                               for _ in range(rng.choice([0, 1, 2]))],
-                      'api': rng.choice(['get', 'get', 'mget']),
+                      'api': rng.choice(['get', 'get', 'mget', 'mget_glob']),
                       'follow': rng.random() < 0.3,
                       'version': rng.choice([3, 3, 4]),
                       'cseed': rng.randrange(1 << 30)})
@@ -345,20 +383,26 @@ def _run_server(case, mon, viol):
 
             mon['server_histories'] += 1
             mon['fs_events'] += w.count
-            if any(b[0] in ('symlink', 'rename', 'link')
-                   for b in case['build']) or \
-                    any(op in ('symlink', 'link', 'rename', 'posix_rename',
-                               'hardlink_ext') for op, _, _ in case['reqs']):
+            nlinkops = sum(b[0] in ('symlink', 'rename', 'link')
+                           for b in case['build']) + \
+                sum(op in ('symlink', 'link', 'rename', 'posix_rename',
+                           'hardlink_ext') for op, _, _ in case['reqs'])
+            via_link = nlinkops > 0
+            if via_link:
                 mon['symlink_histories'] += 1
-                via_link = True
-            else:
-                via_link = False
+            if nlinkops == 1:
+                mon['single_link_histories'] += 1
+            # The recorded finding needs a *chain*: a link made through
+            # another client-made link, or a link moved by a rename.  One
+            # link-making request alone must be confined by the server.
+            LINK_MECH = 'chroot_escape_via_symlink' if nlinkops != 1 \
+                else 'chroot_escape_via_single_link_request'
             info['events'] = w.count
 
             for t, r, body in cli.responses:
                 if t == sftpref.FXP_DATA and b'TOP-SECRET' in body:
                     viol.append({
-                        'mechanism': 'chroot_escape_via_symlink'
+                        'mechanism': LINK_MECH
                         if via_link else 'chroot_escape_direct',
                         'detail': f'secret file content returned to the '
                                   f'client; build={case["build"]} reqs='
@@ -375,7 +419,7 @@ def _run_server(case, mon, viol):
                 ev = (direct or w.outside)[0]
                 viol.append({
                     'mechanism': 'chroot_escape_direct' if direct
-                    else 'chroot_escape_via_symlink',
+                    else LINK_MECH,
                     'detail': f'{len(w.outside)} filesystem call(s) outside '
                               f'the root; first: {ev[0]} {ev[1]!r} -> '
                               f'{ev[2]!r}; build={case["build"]} reqs='
@@ -385,7 +429,7 @@ def _run_server(case, mon, viol):
             if after != before:
                 changed = sorted(set(after.items()) ^ set(before.items()))[:3]
                 viol.append({
-                    'mechanism': 'chroot_escape_via_symlink' if via_link
+                    'mechanism': LINK_MECH if via_link
                     else 'chroot_escape_direct',
                     'detail': f'files outside the root changed: {changed}; '
                               f'build={case["build"]} reqs={case["reqs"]}'})
@@ -474,6 +518,12 @@ def _run_get(case, mon, viol):
                     if case['api'] == 'get':
                         t = asyncio.ensure_future(sftp.get(
                             '/src', dest, recurse=True,
+                            follow_symlinks=case['follow'],
+                            error_handler=errs.append))
+                    elif case['api'] == 'mget_glob':
+                        # every entry of the listing is a top-level source
+                        t = asyncio.ensure_future(sftp.mget(
+                            '/src/*', dest, recurse=True,
                             follow_symlinks=case['follow'],
                             error_handler=errs.append))
                     else:
@@ -633,7 +683,8 @@ def _run_openssh(case, mon, viol):
                 with open(p) as f:
                     if 'TOP-SECRET' in f.read():
                         viol.append({
-                            'mechanism': 'chroot_escape_via_symlink'
+                            'mechanism':
+                            'chroot_escape_via_single_link_request'
                             if n == 'stolen3' else 'chroot_escape_direct',
                             'detail': f'OpenSSH sftp fetched the secret '
                                       f'({n})'})
